@@ -313,10 +313,9 @@ def run_softmax_freq(case):
                              extreme="none", shared=False), rng)
     obs = jnp.asarray(rng.normal(size=(3,)), dtype=jnp.float32)
     p = np.asarray(pol(obs), np.float64)
-    n = 4000
+    n = 2000
     keys = jax.random.split(jax.random.key(case["seed"] % 9973), n)
-    obs_b = jnp.broadcast_to(obs, (n, 3))
-    s = np.asarray(jax.vmap(lambda k, o: pol.sample(o, k))(keys, obs_b))
+    s = np.asarray([int(pol.sample(obs, k)) for k in keys])
     cnt = np.bincount(s, minlength=A)
     sd = np.sqrt(n * p * (1 - p))
     if np.any(np.abs(cnt - n * p) > 6 * sd + 1):
